@@ -1,6 +1,7 @@
 import Autobean.Properties.C01
 import Autobean.Properties.C03
 import Autobean.Properties.C11
+import Autobean.Proofs.TreeOpsSpans
 /-!
 # C05 — after any edit history the tree is still a valid syntax tree of its tokens
 
@@ -16,8 +17,17 @@ in store order, and every node carries the root's store.  Model side:
   (`leaves_after_window_edit`, with the instances `leaves_after_create`, `leaves_after_remove`,
   `leaves_after_replace`); by induction over a history of window edits (`inv_history`).
 
-What the model cannot show is that the Python updates its *fields* to match (e.g. `extend()` forgetting to
-reattach): that is what `intro.check_inv` checks on the real objects after every operation.
+The second half of the file (`## Tree level`) states the property on the TREE itself: a document is a store
+together with a rose tree whose fields are edited in lock-step with the store (`Model/TreeOps.lean`:
+`replaceChild`, `createOptL/R`, `removeOptL/R`, `insertItem`, `extendItems`, `removeItems`, `popItem`, each a
+(store edit, field edit, reattach) triple as in `properties.py` / `fields.py`), the invariant is `DInv`, and it is
+kept by every edit and every history (`dinv_history`); a popped node is a complete document of its own
+(`dinv_popItem`); an `extend()` that forgets the reattach breaks exactly the tag clause
+(`extend_without_reattach_breaks`, `no_reattach_iff`).
+
+What the model still cannot show is that the *generated* Python classes update the same fields the model
+updates: that is what `intro.check_inv` checks on the real objects after every operation, and
+`Obligations.reattach_complete` / `pivots_canonical` on the generated tables.
 -/
 namespace Autobean.C05
 open Autobean.Seq
@@ -112,5 +122,242 @@ theorem inv_history (es : List WindowEdit) (h : ∀ e ∈ es, e.ok) :
 /-! Non-vacuity. -/
 example : (⟨[1, 2], [7, 8], [3], [1], [8], [3]⟩ : WindowEdit).ok := by
   refine ⟨?_, ?_, ?_, ?_⟩ <;> decide
+
+/-! ## Tree level
+
+`Doc = (store, tree, tag)`; `DInv d`: store ids distinct, every node of the tree carries `d.tag`, the depth-first
+leaves are distinct and occur in the store in store order.  The edits are those of `Model/TreeOps.lean`; a value
+handed to an edit is a document `n` of its own with `FreshVal d seps n` (what `detach()` / `_check_reusable` /
+`copy.deepcopy(separators)` guarantee: self-contained, none of its tokens nor the separator copies in `d`'s
+store).  That the addressed child's span is contiguous and free of foreign leaves is *derived* from `DInv`. -/
+
+section TreeLevel
+open Autobean List
+
+/-- `DInv` is the C11 invariant `TInv` minus "has a token" and "`File` only at the root". -/
+theorem tinv_iff_dinv (σ : Nat) (s : List TTk) (t : Tree) :
+    TInv σ s t ↔ DInv ⟨ids s, t, σ⟩ ∧ t.leaves ≠ [] ∧ t.innerFileFree = true :=
+  Autobean.tinv_iff_dinv σ s t
+
+/-! ### Lifting lemmas: a field edit changes exactly one segment of the leaf sequence -/
+
+/-- Replacing the sub-tree at path `p` replaces exactly its leaf segment. -/
+theorem leaves_replaceAt {p : Path} {t old new t' : Tree} (hs : t.subAt p = some old)
+    (hr : t.replaceAt p new = some t') :
+    ∃ A B, t.leaves = A ++ old.leaves ++ B ∧ t'.leaves = A ++ new.leaves ++ B :=
+  Autobean.leaves_replaceAt hs hr
+
+/-- Optional field `None → child`: the child's leaves appear, nothing else moves. -/
+theorem leaves_setOptAt_create {t t' : Tree} {q : Path} {k c g : Nat} {ind : Option (List Char)}
+    {fs : List Tree} {ch : Tree} (hs : t.subAt q = some (.node c g ind fs)) (hk : fs[k]? = some .absent)
+    (h : t.setOptAt q k (some ch) = some t') :
+    ∃ A B, t.leaves = A ++ B ∧ t'.leaves = A ++ ch.leaves ++ B :=
+  Autobean.leaves_setOptAt_create hs hk h
+
+/-- Optional field `child → None`: exactly the child's leaves disappear. -/
+theorem leaves_setOptAt_remove {t t' : Tree} {q : Path} {k c g : Nat} {ind : Option (List Char)}
+    {fs : List Tree} {cur : Tree} (hs : t.subAt q = some (.node c g ind fs)) (hk : fs[k]? = some cur)
+    (h : t.setOptAt q k none = some t') :
+    ∃ A B, t.leaves = A ++ cur.leaves ++ B ∧ t'.leaves = A ++ B :=
+  Autobean.leaves_setOptAt_remove hs hk h
+
+/-- Inserting an item: its leaves go right after those of the items before it (after the placeholder for
+index 0). -/
+theorem leaves_insertItemAt {t t' : Tree} {q : Path} {i g ph : Nat} {is : List Tree} {ch : Tree}
+    (hs : t.subAt q = some (.rep g ph is)) (h : t.insertItemAt q i ch = some t') :
+    ∃ A B, t.leaves = A ++ (ph :: (is.take i).flatMap Tree.leaves ++ (is.drop i).flatMap Tree.leaves) ++ B ∧
+           t'.leaves = A ++ (ph :: (is.take i).flatMap Tree.leaves ++ ch.leaves ++
+                             (is.drop i).flatMap Tree.leaves) ++ B :=
+  Autobean.leaves_insertItemAt hs h
+
+/-- Removing the items `a … b-1`: exactly their leaves disappear. -/
+theorem leaves_removeItemsAt {t t' : Tree} {q : Path} {a b g ph : Nat} {is : List Tree}
+    (hs : t.subAt q = some (.rep g ph is)) (h : t.removeItemsAt q a b = some t') :
+    ∃ A B, t.leaves = A ++ (ph :: (is.take a).flatMap Tree.leaves ++
+                            ((is.take b).drop a).flatMap Tree.leaves ++ (is.drop b).flatMap Tree.leaves) ++ B ∧
+           t'.leaves = A ++ (ph :: (is.take a).flatMap Tree.leaves ++ (is.drop b).flatMap Tree.leaves) ++ B :=
+  Autobean.leaves_removeItemsAt hs h
+
+/-! ### What the invariant says about spans -/
+
+/-- Children are nested inside their parent's span: the span (`model.tokens`) of a descendant is a contiguous
+part of the span of its ancestor. -/
+theorem span_nested {d : Doc} {p r : Path} {t1 t2 : Tree} (hd : DInv d) (h1 : d.tree.subAt p = some t1)
+    (h2 : t1.subAt r = some t2) (hne : t2.leaves ≠ []) :
+    ∃ S1 P1 M2 P2 S2, d.store = S1 ++ (P1 ++ M2 ++ P2) ++ S2 ∧
+      spanIn d.store t1 = some (P1 ++ M2 ++ P2) ∧ spanIn d.store t2 = some M2 :=
+  Autobean.span_nested hd h1 h2 hne
+
+/-- Children are ordered and do not overlap: for fields / items `i < j` of one model the store reads
+`… span(child i) … span(child j) …`. -/
+theorem siblings_ordered {d : Doc} {q : Path} {parent ci cj : Tree} {cs : List Tree} {i j : Nat} (hd : DInv d)
+    (hs : d.tree.subAt q = some parent) (hc : parent.children = some cs) (hij : i < j)
+    (hi : cs[i]? = some ci) (hj : cs[j]? = some cj) (hnei : ci.leaves ≠ []) (hnej : cj.leaves ≠ []) :
+    ∃ S1 Mi G Mj S2, d.store = S1 ++ Mi ++ G ++ Mj ++ S2 ∧
+      spanIn d.store ci = some Mi ∧ spanIn d.store cj = some Mj :=
+  Autobean.siblings_ordered hd hs hc hij hi hj hnei hnej
+
+/-- Every sub-tree with a token has its first and last token in the store, in that order, with all its leaves in
+between and every other leaf of the tree outside. -/
+theorem span_exists {d : Doc} {p : Path} {sub : Tree} (hd : DInv d) (hs : d.tree.subAt p = some sub)
+    (hne : sub.leaves ≠ []) :
+    ∃ S1 M S2 A B, d.store = S1 ++ M ++ S2 ∧ spanIn d.store sub = some M ∧
+      d.tree.leaves = A ++ sub.leaves ++ B ∧ A <+ S1 ∧ sub.leaves <+ M ∧ B <+ S2 ∧
+      M.head? = sub.firstLeaf ∧ M.getLast? = sub.lastLeaf :=
+  Autobean.span_exists hd hs hne
+
+/-! ### Every edit keeps the invariant -/
+
+/-- `replace_node` (required field, optional field holding a value, `w[i] = v`): the old child's store range is
+spliced out for the value's store, the value is reattached and put in the field. -/
+theorem dinv_replaceChild {d n d' : Doc} {p : Path} (hd : DInv d) (hn : FreshVal d [] n)
+    (h : replaceChild d p n = some d') : DInv d' :=
+  Autobean.dinv_replaceChild hd hn h
+
+/-- … and it does not fail on a child that has a token. -/
+theorem replaceChild_total {d : Doc} (n : Doc) {p : Path} {old : Tree} (hd : DInv d)
+    (hs : d.tree.subAt p = some old) (hne : old.leaves ≠ []) : ∃ d', replaceChild d p n = some d' :=
+  Autobean.replaceChild_total n hd hs hne
+
+/-- `_create_node` of an optional-left (`insert_after(pivot, seps ++ value)`) and of an optional-right field
+(`insert_before(pivot, value ++ seps)`), with the canonical pivot recomputed from the fields. -/
+theorem dinv_createOpt {d n d' : Doc} {q : Path} {k : Nat} {seps : List Nat} (hd : DInv d)
+    (hn : FreshVal d seps n) :
+    (createOptL d q k seps n = some d' → DInv d') ∧ (createOptR d q k seps n = some d' → DInv d') :=
+  ⟨Autobean.dinv_createOptL hd hn, Autobean.dinv_createOptR hd hn⟩
+
+/-- `_remove_node` of an optional-left (`remove(get_next(pivot), child.last_token)`) and of an optional-right
+field (`remove(child.first_token, get_prev(pivot))`). -/
+theorem dinv_removeOpt {d d' : Doc} {q : Path} {k : Nat} (hd : DInv d) :
+    (removeOptL d q k = some d' → DInv d') ∧ (removeOptR d q k = some d' → DInv d') :=
+  ⟨Autobean.dinv_removeOptL hd, Autobean.dinv_removeOptR hd⟩
+
+/-- `insert(i, v)` / `append(v)`: all three branches of `_insert_tokens`. -/
+theorem dinv_insertItem {d n d' : Doc} {q : Path} {i : Nat} {seps : List Nat} (hd : DInv d)
+    (hn : FreshVal d seps n) (h : insertItem d q i seps n = some d') : DInv d' :=
+  Autobean.dinv_insertItem hd hn h
+
+/-- `extend(values)` with every value reattached (each value fresh w.r.t. the store it is inserted into). -/
+theorem dinv_extend {d d' : Doc} {q : Path} {vs : List (List Nat × Doc)} (hd : DInv d)
+    (h : extendChecked d q vs = some d') : DInv d' ∧ extendItems d q vs = some d' :=
+  ⟨Autobean.dinv_extendChecked hd h, Autobean.extendChecked_eq h⟩
+
+/-- `del w[a:b]`, `clear()`: both branches of `_del_tokens`. -/
+theorem dinv_removeItems {d d' : Doc} {q : Path} {a b : Nat} (hd : DInv d)
+    (h : removeItems d q a b = some d') : DInv d' :=
+  Autobean.dinv_removeItems hd h
+
+/-- `pop(i)`: the remaining document satisfies the invariant, and the popped node is a complete, self-contained
+document: it satisfies the invariant in its own store, which is exactly its old span, shares no token with what
+remains, and is spanned end to end by the node (so `detach()` accepts it again). -/
+theorem dinv_popItem {d d1 pop : Doc} {q : Path} {i τ : Nat} (hd : DInv d)
+    (h : popItem d q i τ = some (d1, pop)) :
+    DInv d1 ∧ DInv pop ∧ (∀ x ∈ pop.store, x ∉ d1.store) ∧
+      pop.store.head? = pop.tree.firstLeaf ∧ pop.store.getLast? = pop.tree.lastLeaf :=
+  Autobean.dinv_popItem hd h
+
+/-- … its store is the store range `first_token … last_token` of the item before the pop. -/
+theorem popItem_store_is_span {d d1 pop : Doc} {q : Path} {i τ : Nat} (hd : DInv d)
+    (h : popItem d q i τ = some (d1, pop)) :
+    ∃ g ph is it, d.tree.subAt q = some (.rep g ph is) ∧ is[i]? = some it ∧
+      spanIn d.store it = some pop.store ∧ pop.tree = reattachAll τ it ∧ pop.tag = τ := by
+  obtain ⟨g, ph, is, it, f, l, hs, hi, hf, hl, _, _, htag, htree, hit, _, _, _, _⟩ := Autobean.popItem_spec hd h
+  exact ⟨g, ph, is, it, hs, hi, by simp [spanIn, hf, hl, hit], htree, htag⟩
+
+/-- **History.**  After every sequence of edits (`TOp`: replace, create / remove optional, insert, set, extend,
+delete, pop) the document satisfies the invariant. -/
+theorem dinv_history (ops : List TOp) {d d' : Doc} (hd : DInv d) (h : runOps d ops = some d') : DInv d' :=
+  Autobean.dinv_history ops hd h
+
+/-! ### The repaired defect: `extend()` without `reattach` -/
+
+/-- Without the reattach the store and leaf clauses still hold, and the invariant holds afterwards exactly when
+every node of the value already carried this document's store — never the case for a detached value with a node. -/
+theorem no_reattach_iff {d n d' : Doc} {q : Path} {i : Nat} {seps : List Nat} (hd : DInv d)
+    (hn : FreshVal d seps n) (h : insertItemNoReattach d q i seps n = some d') :
+    d'.store.Nodup ∧ d'.tree.leaves.Nodup ∧ d'.tree.leaves <+ d'.store ∧
+      (DInv d' ↔ ∀ g ∈ n.tree.tags, g = d.tag) :=
+  Autobean.insertItemNoReattach_iff hd hn h
+
+/-! ### Non-vacuity: a concrete document and every edit on it
+
+Tokens `1 … 9` (`2 4 6 8` are whitespace).  Root (class 2): required field `tok 1`; optional-left field holding
+the node `[tok 3]`; an absent optional field; a repeated field with placeholder `5` and the items `tok 7` and
+the node `[tok 9]`.  Store tag `0`.  The value: the node `[tok 20, tok 21]` in its own store (tag `1`). -/
+
+def exDoc : Doc :=
+  ⟨[1, 2, 3, 4, 5, 6, 7, 8, 9],
+   .node 2 0 none [.tok 1, .node 3 0 none [.tok 3], .absent, .rep 0 5 [.tok 7, .node 4 0 none [.tok 9]]], 0⟩
+
+def exVal : Doc := ⟨[20, 21], .node 9 1 none [.tok 20, .tok 21], 1⟩
+def exVal2 : Doc := ⟨[40], .node 9 2 none [.tok 40], 2⟩
+
+example : DInv exDoc ∧ DInv exVal ∧ FreshVal exDoc [30] exVal ∧ FreshVal exDoc [] exVal := by decide
+
+/-- replace the required child. -/
+example : ∃ d', replaceChild exDoc [0] exVal = some d' ∧ d'.store = [20, 21, 2, 3, 4, 5, 6, 7, 8, 9] ∧
+    d'.tree.leaves = [20, 21, 3, 5, 7, 9] ∧ DInv d' :=
+  ⟨_, rfl, rfl, rfl, dinv_replaceChild (d := exDoc) (n := exVal) (p := [0]) (by decide) (by decide) rfl⟩
+
+/-- create the absent optional child, left and right variant (pivot `3` resp. `5`). -/
+example : ∃ d', createOptL exDoc [] 2 [30] exVal = some d' ∧ d'.store = [1, 2, 3, 30, 20, 21, 4, 5, 6, 7, 8, 9] ∧
+    d'.tree.leaves = [1, 3, 20, 21, 5, 7, 9] ∧ DInv d' :=
+  ⟨_, rfl, rfl, rfl, (dinv_createOpt (d := exDoc) (n := exVal) (seps := [30]) (q := []) (k := 2) (by decide) (by decide)).1 rfl⟩
+
+example : ∃ d', createOptR exDoc [] 2 [30] exVal = some d' ∧ d'.store = [1, 2, 3, 4, 20, 21, 30, 5, 6, 7, 8, 9] ∧
+    d'.tree.leaves = [1, 3, 20, 21, 5, 7, 9] ∧ DInv d' :=
+  ⟨_, rfl, rfl, rfl, (dinv_createOpt (d := exDoc) (n := exVal) (seps := [30]) (q := []) (k := 2) (by decide) (by decide)).2 rfl⟩
+
+/-- remove the present optional child (gap `2` and child `3` go). -/
+example : ∃ d', removeOptL exDoc [] 1 = some d' ∧ d'.store = [1, 4, 5, 6, 7, 8, 9] ∧
+    d'.tree.leaves = [1, 5, 7, 9] ∧ DInv d' :=
+  ⟨_, rfl, rfl, rfl, (dinv_removeOpt (d := exDoc) (q := []) (k := 1) (by decide)).1 rfl⟩
+
+/-- insert at the front (value then separators, in front of the first item), in the middle, at the end. -/
+example : (insertItem exDoc [3] 0 [30] exVal).map (·.store) = some [1, 2, 3, 4, 5, 6, 20, 21, 30, 7, 8, 9] ∧
+    (insertItem exDoc [3] 1 [30] exVal).map (·.store) = some [1, 2, 3, 4, 5, 6, 7, 30, 20, 21, 8, 9] ∧
+    (insertItem exDoc [3] 2 [30] exVal).map (·.store) = some [1, 2, 3, 4, 5, 6, 7, 8, 9, 30, 20, 21] ∧
+    (insertItem exDoc [3] 1 [30] exVal).map (·.tree.leaves) = some [1, 3, 5, 7, 20, 21, 9] := by decide
+
+example : ∃ d', insertItem exDoc [3] 1 [30] exVal = some d' ∧ DInv d' :=
+  ⟨_, rfl, dinv_insertItem (d := exDoc) (n := exVal) (seps := [30]) (q := [3]) (i := 1) (by decide) (by decide) rfl⟩
+
+/-- delete the first item (first branch of `_del_tokens`), the last one, all. -/
+example : (removeItems exDoc [3] 0 1).map (·.store) = some [1, 2, 3, 4, 5, 6, 9] ∧
+    (removeItems exDoc [3] 1 2).map (·.store) = some [1, 2, 3, 4, 5, 6, 7] ∧
+    (removeItems exDoc [3] 0 2).map (·.store) = some [1, 2, 3, 4, 5] := by decide
+
+example : ∃ d', removeItems exDoc [3] 0 1 = some d' ∧ DInv d' :=
+  ⟨_, rfl, dinv_removeItems (d := exDoc) (q := [3]) (a := 0) (b := 1) (by decide) rfl⟩
+
+/-- pop the second item: a document of its own (store `[9]`, new tag `5`). -/
+example : ∃ d1 pop, popItem exDoc [3] 1 5 = some (d1, pop) ∧ d1.store = [1, 2, 3, 4, 5, 6, 7] ∧
+    pop.store = [9] ∧ pop.tree.tags = [5] ∧ DInv d1 ∧ DInv pop :=
+  ⟨_, _, rfl, rfl, rfl, rfl, (dinv_popItem (d := exDoc) (q := [3]) (i := 1) (τ := 5) (by decide) rfl).1,
+    (dinv_popItem (d := exDoc) (q := [3]) (i := 1) (τ := 5) (by decide) rfl).2.1⟩
+
+/-- a history: pop the last item, put it into the empty optional field, extend the list by two values, replace
+the first item, remove the other optional child, clear the list. -/
+def exOps : List TOp :=
+  [.popItem [3] 1 5, .createOptL [] 2 [30] ⟨[9], .node 4 5 none [.tok 9], 5⟩,
+   .extendItems [3] [([31], exVal), ([32], exVal2)], .setItem [3] 0 ⟨[50], .tok 50, 6⟩,
+   .removeOptL [] 1, .removeItems [3] 0 3]
+
+example : ∃ d', runOps exDoc exOps = some d' ∧ d'.store = [1, 30, 9, 4, 5] ∧ d'.tree.leaves = [1, 9, 5] ∧
+    DInv d' :=
+  ⟨_, rfl, rfl, rfl, dinv_history exOps (d := exDoc) (by decide) rfl⟩
+
+/-- a value that is not fresh (here: a token already in the store) is refused, as `detach()` does. -/
+example : applyOp exDoc (.insertItem [3] 0 [30] ⟨[7], .tok 7, 9⟩) = none := by decide
+
+/-- **Negative witness** (the defect repaired in `extend()`): the same insertion without the reattach leaves a
+node pointing at its old store — the tag clause fails (and only it), while the repaired edit is fine. -/
+theorem extend_without_reattach_breaks :
+    ∃ d', insertItemNoReattach exDoc [3] 2 [30] exVal = some d' ∧ ¬ DInv d' ∧
+      d'.store.Nodup ∧ d'.tree.leaves.Nodup ∧ d'.tree.leaves <+ d'.store ∧ d'.tree.tags = [0, 0, 0, 0, 1] ∧
+      ∃ d'', insertItem exDoc [3] 2 [30] exVal = some d'' ∧ DInv d'' ∧ d''.store = d'.store := by
+  refine ⟨_, rfl, by decide, by decide, by decide, by decide, by decide, _, rfl, by decide, rfl⟩
+
+end TreeLevel
 
 end Autobean.C05
